@@ -66,7 +66,7 @@ Fmt(r, vs) == [i \in 1..Len(vs) |-> r.prefix \o vs[i]]
 \* namespace: defines ipaths ifiles modes passes (Seq) ; pp : [key -> Seq] flag-specific passes ;
 \* ovr : set of rule indices whose `override` is still armed ; unk : unrecognised tokens
 InitNS(c) ==
-  [defines |-> <<>>, ipaths |-> <<>>, ifiles |-> <<>>, modes |-> <<>>, passes |-> <<>>,
+  [defines |-> <<>>, ipaths |-> <<>>, sysdirs |-> <<>>, ifiles |-> <<>>, modes |-> <<>>, passes |-> <<>>,
    pp |-> [k \in {c.rules[i].flags[1] : i \in {j \in 1..Len(c.rules) :
                      c.rules[j].action # "append_const" /\ c.rules[j].dest = "passes" /\ c.rules[j].hasdef}} |->
              LET i == CHOOSE j \in 1..Len(c.rules) : c.rules[j].flags[1] = k IN c.rules[i].default],
@@ -85,6 +85,7 @@ SetPP(ns, k, v) == [ns EXCEPT !.pp = [x \in DOMAIN ns.pp \cup {k} |-> IF x = k T
 One(c, ns, t) ==
   IF t.flag = "-D" THEN [ns EXCEPT !.defines = Append(@, t.val)]
   ELSE IF t.flag = "-I" THEN [ns EXCEPT !.ipaths = Append(@, t.val)]
+  ELSE IF t.flag = "-isystem" THEN [ns EXCEPT !.sysdirs = Append(@, t.val)]     \* searched after every -I directory
   ELSE IF t.flag = "-include" THEN [ns EXCEPT !.ifiles = Append(@, t.val)]
   ELSE
   LET i == RuleIdx(c, t.flag) IN
@@ -117,7 +118,8 @@ Config(c, ns, p) ==
       base == IF p = "default" \/ ~known THEN [defines |-> <<>>, ipaths |-> <<>>, ifiles |-> <<>>] ELSE c.passes[p]
       modes == IF p = "default" THEN SeqToSet(ns.modes) ELSE IF known THEN SeqToSet(c.passes[p].modes) ELSE {}
   IN [pass |-> p, known |-> known,
-      defines |-> ns.defines \o base.defines, ipaths |-> ns.ipaths \o base.ipaths, ifiles |-> ns.ifiles \o base.ifiles,
+      defines |-> ns.defines \o base.defines, ipaths |-> ns.ipaths \o ns.sysdirs \o base.ipaths,
+      ifiles |-> ns.ifiles \o base.ifiles,
       modes |-> {m \in modes : m \in DOMAIN c.modes}, badmodes |-> {m \in modes : m \notin DOMAIN c.modes}]
 
 Parse(table, name, argv) ==
